@@ -12,8 +12,8 @@ use std::str::FromStr;
 
 pub fn lanes() -> Vec<Lane> {
     vec![
-        Lane { name: "test-structs", count: |c| if c.thorough() { 600_000 } else { 40_000 }, run: test_struct_lane },
-        Lane { name: "shipped", count: |c| if c.thorough() { 600_000 } else { 40_000 }, run: shipped_lane },
+        Lane { name: "test-structs", count: |c| if c.thorough() { 600_000 } else { 100_000 }, run: test_struct_lane },
+        Lane { name: "shipped", count: |c| if c.thorough() { 600_000 } else { 100_000 }, run: shipped_lane },
         Lane { name: "errors", count: |_| KINDS.iter().map(|k| 2 * k.fields.len() as u64).sum::<u64>() + 40, run: errors_lane },
     ]
 }
